@@ -363,8 +363,17 @@ fn guise(o: usize) -> Option<PublicKey> {
     match o {
         0 => PublicKey::from_ed25519(raw).ok(),
         1 => PublicKey::from_ecdsa(raw).ok(),
+        // the RSA owner's modulus declared with the other PSS digest; the holder of the one private
+        // key can sign under either declaration (see `guise_signer`)
+        2 => Some(keys::get("rsa512a").public().clone()),
         _ => None,
     }
+}
+
+/// For the RSA owner the other guise has a private key too (it is the same key): a second,
+/// genuine signature under the other scheme.
+fn guise_signer(o: usize) -> Option<&'static Key> {
+    (o == 2).then(|| keys::get("rsa512a"))
 }
 
 fn id_str(k: &PublicKey) -> String {
@@ -425,10 +434,15 @@ fn corrupt(block: &mut Value, idx: usize, c: &str, bit: Option<usize>) -> bool {
         }
         "copy-under-guise-id" => {
             let own = block["signatures"][idx]["keyid"].as_str().unwrap_or("").to_string();
-            let Some(o) = (0..2).find(|o| owners()[*o].id() == own) else { return false };
+            let Some(o) = (0..3).find(|o| owners()[*o].id() == own) else { return false };
             let Some(g) = guise(o) else { return false };
             let mut e = block["signatures"][idx].clone();
             e["keyid"] = json!(id_str(&g));
+            if let Some(signer) = guise_signer(o) {
+                // another scheme: the copied value would not verify; the key holder signs again
+                let Ok(meta) = serde_json::from_str::<MetadataWrapper>(&block["signed"].to_string()) else { return false };
+                e = world::block_value(&world::sign(meta, &[signer]))["signatures"][0].clone();
+            }
             block["signatures"].as_array_mut().unwrap().push(e);
         }
         _ => return false,
@@ -506,7 +520,7 @@ fn keymaps(signers: &[usize]) -> Vec<KeyMap> {
         v.push(KeyMap { name: "unrelated-key-under-signer-id".into(), entries: vec![(key_of(s0).id(), 9)] });
     }
     // one key in two guises (same material, two intrinsic ids), next to the other signers
-    for g in signers.iter().copied().filter(|s| *s < 2) {
+    for g in signers.iter().copied().filter(|s| *s < 3) {
         let gid = id_str(&guise(g).unwrap());
         let mut e: Vec<(String, usize)> = signers.iter().map(|i| own(*i)).collect();
         e.push((gid.clone(), 80 + g));
@@ -583,7 +597,8 @@ fn exec(acc: &mut Acc, base: &Base, s: &Signed, km: &KeyMap, hist: &[&str], corr
         // the guise has a valid signature iff an entry under its id carries the owner's genuine value
         let gid = id_str(&pub_of(g));
         let own = key_of(g - 80).id();
-        block["signatures"].as_array().map(|a| a.iter().any(|e| e["keyid"].as_str() == Some(gid.as_str()) && e["sig"].as_str().is_some() && e["sig"].as_str() == s.genuine.get(&own).map(|x| x.as_str()))).unwrap_or(false)
+        // (for the RSA guise any entry under its id is taken as possibly valid: allowed only errs towards silence)
+        block["signatures"].as_array().map(|a| a.iter().any(|e| e["keyid"].as_str() == Some(gid.as_str()) && e["sig"].as_str().is_some() && (g == 82 || e["sig"].as_str() == s.genuine.get(&own).map(|x| x.as_str())))).unwrap_or(false)
     };
     let all_valid = km.entries.iter().all(|(_, i)| *i != 9 && if *i >= 80 { guise_entry_valid(*i) } else { valid.contains(i) });
     let allowed = !km.entries.is_empty() && distinct && all_valid && identity;
